@@ -20,6 +20,8 @@ Only the ion-association clause has parts whose truth is in the shape of the cod
                is 1 + 2 OSMOT/OSUM (Pitzer) resp. 1 + OSMOT ln10/OSUM (SIT), the water activity is exp(-OSUM COSMOT/55.50837), and
                OSUM - the total solute molality - is accumulated as + M[i] over the list that the model's make_lists routine
                fills with EVERY solute present (the push that is not conditional on the charge class), not over a sub-list
+  C16.lambdamult  Pitzer neutral-species lambda terms: on every path of pitzer_tidy the multiplicities satisfy ln_coef[0] + ln_coef[1] =
+               4 os_coef (Euler's relation for a Gibbs-energy term of degree 2, with the factor 2 / Sum m of pitzer())
   C16.etheta   Pitzer unsymmetrical mixing: in ETHETAS  E-theta = zj zk (J(xjk) - J(xjj)/2 - J(xkk)/2) / (4 I)  and
                E-theta' = zj zk (J'(xjk) - J'(xjj)/2 - J'(xkk)/2) / (8 I^2) - E-theta / I  with x_ab = 6 A0 sqrt(I) za zb, as exact
                rational identities over the opaque integrals J, J'; each (J, J') pair is produced by the call receiving its own x
@@ -87,6 +89,77 @@ def symbol_of(n):
     if n[0] == "Ref" and n[2] in ("local", "param"):
         return n[3]
     return None
+
+
+def lambdamult_rule(P, R):
+    """Gibbs-Duhem for the neutral-species lambda terms of the Pitzer model.  A term  G = g lambda m_i m_j  of the excess Gibbs energy gives
+    ln gamma_i += g lambda m_j (both slots, also when they address the same species) and (phi - 1) Sum m += g lambda m_i m_j; with the factor
+    2 / Sum m that pitzer() applies to OSMOT this is  ln_coef[0] = ln_coef[1] = g,  os_coef = g / 2  for distinct species and, for i = j
+    (G = lambda m_i^2),  ln_coef[0] + ln_coef[1] = 2,  os_coef = 1/2: on every path of pitzer_tidy's TYPE_LAMBDA block the multiplicities it
+    assigns satisfy  ln_coef[0] + ln_coef[1] = 4 os_coef  (Euler's relation for a term of degree 2)."""
+    RULE = "C16.lambdamult"
+    R.rule(RULE, "pitzer_tidy: on every path of the TYPE_LAMBDA block ln_coef[0] + ln_coef[1] = 4 os_coef (gamma and osmotic multiplicities of one Gibbs-energy term)", minimum=2)
+    f = P.one("Phreeqc::pitzer_tidy")
+    where = dict(file=f["file"], function=f["q"])
+    blk = None
+    for x in T.walk(f["body"]):
+        if x[0] == "If" and any(y[0] == "Ref" and y[2] in ("enum",) and y[3].endswith("TYPE_LAMBDA") for y in T.walk(x[2])) or \
+                (x[0] == "If" and "TYPE_LAMBDA" in T.text(x[2])):
+            if any(yy[0] == "Member" and yy[2] == "pitz_param::os_coef" for yy in T.walk(x[3])):
+                blk = x
+    if blk is None:
+        # the macro may have been expanded to a literal: find the If whose body assigns both os_coef and ln_coef and compares ispec entries
+        for x in T.walk(f["body"]):
+            if x[0] == "If" and any(yy[0] == "Member" and yy[2] == "pitz_param::os_coef" for yy in T.walk(x[3])) \
+                    and any(yy[0] == "Member" and yy[2] == "pitz_param::ln_coef" for yy in T.walk(x[3])) \
+                    and any(yy[0] == "Bin" and yy[2] == "==" and T.text(yy[3]) == "i0" for yy in T.walk(x[3])):
+                blk = x
+    if blk is None:
+        R.anchor_missing(RULE, "pitzer_tidy: the TYPE_LAMBDA block that assigns os_coef and ln_coef was not found")
+        return
+
+    def slot(n):
+        n = T.strip_casts(n)
+        if n[0] == "Member" and n[2] == "pitz_param::os_coef":
+            return "os"
+        if n[0] == "Index" and T.strip_casts(n[2])[0] == "Member" and T.strip_casts(n[2])[2] == "pitz_param::ln_coef" and T.lit_value(n[3]) is not None:
+            return "ln%d" % T.lit_value(n[3])
+        return None
+
+    def paths(stmt, env):
+        """all final environments of constant assignments through stmt"""
+        if not T.is_node(stmt):
+            return [env]
+        if stmt[0] == "Compound":
+            envs = [env]
+            for s_ in stmt[2]:
+                envs = [e2 for e in envs for e2 in paths(s_, e)]
+            return envs
+        if stmt[0] == "If":
+            out = paths(stmt[3], dict(env, _p=env.get("_p", "") + "T"))
+            out += paths(stmt[4], dict(env, _p=env.get("_p", "") + "F")) if T.is_node(stmt[4]) else [dict(env, _p=env.get("_p", "") + "F")]
+            return out
+        if stmt[0] == "Bin" and stmt[2] == "=" and slot(stmt[3]):
+            v = T.strip_casts(stmt[4])
+            if v[0] == "Lit":
+                e = dict(env)
+                e[slot(stmt[3])] = float(str(v[3]).rstrip("fFlL"))
+                return [e]
+        return [env]
+    n = 0
+    for e in paths(blk[3], {}):
+        if not all(k in e for k in ("os", "ln0", "ln1")):
+            continue
+        n += 1
+        inst = "path %s (os %g, ln %g %g)" % (e.get("_p", ""), e["os"], e["ln0"], e["ln1"])
+        if abs(e["ln0"] + e["ln1"] - 4 * e["os"]) < 1e-12:
+            R.ok(RULE, inst, "ln_coef[0] + ln_coef[1] = 4 os_coef")
+        else:
+            R.violation(RULE, inst, "this path of pitzer_tidy leaves os_coef = %g with ln_coef = %g, %g: the lambda term enters ln gamma with total multiplicity %g and the osmotic "
+                        "coefficient with %g instead of %g - activity coefficients and osmotic coefficient no longer derive from one Gibbs-energy function"
+                        % (e["os"], e["ln0"], e["ln1"], e["ln0"] + e["ln1"], 2 * e["os"], (e["ln0"] + e["ln1"]) / 2), line=blk[1], **where)
+    if n < 2:
+        R.anchor_missing(RULE, "only %d complete assignment paths found in the TYPE_LAMBDA block (n,n and n,n')" % n)
 
 
 def etheta_rule(P, R):
@@ -181,6 +254,7 @@ def _with_sqrt_symbol(tree, name):
 
 
 def run(P, R, tier):
+    lambdamult_rule(P, R)
     etheta_rule(P, R)
     R.undecided += ["values of the Debye-Hueckel constants and of the ionic strength at which the formulas are evaluated",
                     "exchange and surface activity conventions (gflag 4, 6)", "Pitzer and SIT excess-energy sums, Gibbs-Duhem consistency, water activity / osmotic coefficient"]
